@@ -695,7 +695,33 @@ def r12_verdict_not_from_report(ctx, rule="R12", only=None, which=("pandas",)):
         raise AnalysisError("no core-check verdict site found")
 
 
+def r13_label_verdict_not_by_truthiness(ctx):
+    """`unique_column_names` fails when some label occurs twice.  Whether it does is a question about *how many*
+    duplicated labels there are, not about the labels' own truth values: `Index.any()` over the duplicated labels is False
+    for the legal labels 0, '' (and raises for MultiIndex / datetime labels), so duplicated columns named 0 are accepted."""
+    from .c08 import PDC
+    f = ctx.ix.cls(PDC).lookup("check_column_names_are_unique")
+    if f is None:
+        raise AnalysisError("pandas check_column_names_are_unique missing")
+    ctx.touched(f)
+    ex = Expander(f.node)
+    tests = [n.test for n in walk_no_nested(f.node) if isinstance(n, (ast.If, ast.IfExp))] + \
+            [n.value for n in walk_no_nested(f.node) if isinstance(n, ast.Assign) and any(isinstance(t, ast.Name) and t.id == "passed" for t in n.targets)]
+    bad = []
+    for t in tests:
+        for c in [x for x in ast.walk(t) if isinstance(x, ast.Call) and callee_last(x) in ("any", "all") and isinstance(x.func, ast.Attribute)]:
+            recv = ex.expand(c.func.value)
+            # labels themselves: a selection of check_obj.columns (not the boolean `duplicated()` mask)
+            if isinstance(recv, ast.Subscript) and "columns" in txt(recv.value) and not (isinstance(recv, ast.Call)):
+                bad.append(c)
+    ctx.ob("R13", f, "check_column_names_are_unique decides on the number of duplicated labels", not bad,
+           "no truth-value aggregation over labels" if not bad else
+           f"`{txt(bad[0])}` aggregates the truth values of the duplicated *labels*: columns [0, 0] or ['', ''] are accepted although unique_column_names=True, "
+           "and MultiIndex / datetime labels raise TypeError", f.loc(bad[0]) if bad else None)
+
+
 def run(ctx):
+    r13_label_verdict_not_by_truthiness(ctx)
     r12_verdict_not_from_report(ctx)
     r11_verdict_from_output(ctx)
     r10_monotone_verdict(ctx)
